@@ -49,7 +49,7 @@ def gen_system(rng, fast=False):
 
     system = System()
     desc = []
-    kind0 = rng.choice(["chain", "chain", "closed", "pointmass"]) if not fast else "chain"
+    kind0 = rng.choice(["chain", "chain", "closed", "pointmass", "driven"]) if not fast else "chain"
     Th = np.diag([0.02, 0.09, 0.09])
     L = 1.0
     if kind0 == "pointmass":
@@ -66,6 +66,32 @@ def gen_system(rng, fast=False):
         if rng.random() < 0.5:
             system.add(Spring(TwoPointInteraction(system.origin, pm, B_r_CP1=np.array([1.0, 0, 0])), 8.0, l_ref=1.0, compliance_form=rng.random() < 0.6, name="sp"))
             desc.append("spring")
+        system.assemble(options=_opts())
+        return system, desc
+    if kind0 == "driven":
+        # a link hinged to a frame whose prescribed motion starts late (at rest during the first steps) and is smooth afterwards
+        from cardillo.discrete import Frame
+        ts, T = 0.004, 0.05
+        amp = np.array([rng.uniform(0.2, 0.6), rng.uniform(-0.5, 0.5), rng.uniform(-0.3, 0.3)])
+        def s0(t):
+            x = min(max((t - ts) / T, 0.0), 1.0)
+            return 10 * x**3 - 15 * x**4 + 6 * x**5
+        def s1(t):
+            x = (t - ts) / T
+            return 0.0 if x <= 0 or x >= 1 else (30 * x**2 - 60 * x**3 + 30 * x**4) / T
+        def s2(t):
+            x = (t - ts) / T
+            return 0.0 if x <= 0 or x >= 1 else (60 * x - 180 * x**2 + 120 * x**3) / T**2
+        frame = Frame(r_OP=lambda t: amp * s0(t), r_OP_t=lambda t: amp * s1(t), r_OP_tt=lambda t: amp * s2(t), name="driver")
+        P = rand_unit_quat(rng)
+        A = quat_to_matrix(P)
+        link = RigidBody(1.0, Th, q0=np.concatenate([A @ np.array([0.5 * L, 0, 0]), P]), u0=np.zeros(6), name="link0")
+        if rng.random() < 0.5:
+            j = Revolute(frame, link, axis=rng.randrange(3), r_OJ0=np.zeros(3), A_IJ0=A.copy(), name="rev0")
+        else:
+            j = Spherical(frame, link, r_OJ0=np.zeros(3), name="sph0")
+        system.add(frame, link, j, Force(np.array([0.0, 0.0, -9.81]), link, name="grav0"))
+        desc.append("driven-" + type(j).__name__)
         system.assemble(options=_opts())
         return system, desc
     nl = rng.randint(1, 3) if not fast else 2
@@ -273,6 +299,19 @@ def run(ctx):
                 break
             except AssertionError:
                 continue
+    # at least one driven system (prescribed motion that starts after the first step)
+    if not any(d and d[0].startswith("driven") for _, d, _ in systems):
+        for _ in range(200):
+            state = rng.getstate()
+            try:
+                with warnings.catch_warnings(), _quiet():
+                    warnings.simplefilter("ignore")
+                    _, desc = gen_system(rng)
+            except AssertionError:
+                continue
+            if desc and desc[0].startswith("driven"):
+                systems.append((state, desc, False))
+                break
     # the fast two-bar pendulum with a coarse step (Newton may fail there: only converged steps may be stored)
     state = rng.getstate()
     systems.append((state, ["fast two-bar revolute pendulum"], True))
